@@ -38,6 +38,9 @@ func RawFile(name string, content []byte) *Node {
 }
 func Link(name, target string) *Node { return &Node{Name: name, Kind: "symlink", Target: target} }
 
+// Fifo is a named pipe (a special file: neither regular file nor directory).
+func Fifo(name string) *Node { return &Node{Name: name, Kind: "fifo"} }
+
 // Patch is literal data at an offset (signatures, headers).
 type Patch struct {
 	Off  int64 `json:"off"`
@@ -204,6 +207,11 @@ func materializeOne(dir string, c *Node) error {
 		}
 	case "symlink":
 		if err := os.Symlink(c.Target, p); err != nil {
+			return err
+		}
+	case "fifo":
+		// a named pipe: opening it blocks until somebody opens the other end (nobody will)
+		if err := syscall.Mkfifo(p, 0o644); err != nil {
 			return err
 		}
 	default:
